@@ -386,6 +386,19 @@ func c13Explore(src *choice.Src) *core.Result {
 			res.Faults["view-switch"]++
 		})
 	}
+	// the logs keep growing while clients run: every client's view of the log it is shown moves forward,
+	// so that concurrent lookups of one client carry different heads
+	for i, ng := 0, src.Weighted(2, 2, 2, 1); i < ng; i++ {
+		step := src.Range(1, 150)
+		r.s.At(step, func() {
+			for _, c := range w.Clients {
+				if c.Size < c.Uni.N() {
+					c.Size++
+				}
+			}
+			res.Probes["log-grew-during-run"]++
+		})
+	}
 	// environment tampering with the stored head
 	for i, nt := 0, src.Weighted(5, 2, 1); i < nt; i++ {
 		step, kind, arg := src.Range(1, 250), src.Weighted(3, 3, 1, 1), src.Raw()
